@@ -504,4 +504,53 @@ theorem number_renderInt (sd : Bytes → Option UInt64) (i : Int) (rest : Bytes)
       rw [this]
   simpa using number_append sd _ [] rest _ h1 hr
 
+/-! ## a concrete (`fmt17`, `strtod`) pair satisfying the hypotheses of the round trip
+(used only to show that the hypotheses are satisfiable: the bit pattern written in decimal
+followed by `.0`) -/
+
+def fmtCanon (x : UInt64) : Bytes := decNat x.toNat ++ [0x2E, 0x30]
+def sdCanon (t : Bytes) : Option UInt64 := some (UInt64.ofNat (natOfDigits (digits t)))
+
+theorem digits_all_dot (ds rest : Bytes) (hd : allDigits ds) :
+    digits (ds ++ 0x2E :: rest) = ds ∧ afterDigits (ds ++ 0x2E :: rest) = 0x2E :: rest := by
+  induction ds with
+  | nil => simp [digits, afterDigits, isDigit]
+  | cons b ds ih =>
+    have hb : isDigit b = true := hd b (by simp)
+    have := ih (fun x hx => hd x (by simp [hx]))
+    simp [digits, afterDigits, hb, this.1, this.2]
+
+theorem renderFloat_canon (x : UInt64) : renderFloat fmtCanon x = fmtCanon x := by
+  simp [renderFloat, fmtCanon]
+
+theorem floatTok_canon (x : UInt64) : floatTok (fmtCanon x) = true := by
+  have hi : intPart (fmtCanon x) = some (decNat x.toNat, [0x2E, 0x30]) := by
+    unfold fmtCanon
+    rcases decNat_shape x.toNat with ⟨_, h⟩ | ⟨_, k, ds, hk0, hk, he, hd⟩
+    · rw [h]; rfl
+    · rw [he]
+      have f := digit_facts ⟨k, hk⟩
+      have h30 : (digit k == 0x30) = false := by rw [f.2.2.1]; simp; omega
+      have h19 : (0x31 ≤ digit k && digit k ≤ 0x39) = true := by rw [f.2.2.2.1]; simp; omega
+      have hd' := digits_all_dot ds [0x30] hd
+      simp only [List.cons_append, intPart, h30, Bool.false_eq_true, if_false, h19, if_true, hd'.1, hd'.2]
+  have hn : isNeg (fmtCanon x) = false := by
+    unfold fmtCanon
+    rcases decNat_shape x.toNat with ⟨_, h⟩ | ⟨_, k, ds, hk0, hk, he, hd⟩
+    · rw [h]; rfl
+    · rw [he, List.cons_append, isNeg_cons]; exact (digit_facts ⟨k, hk⟩).2.2.2.2
+  unfold floatTok
+  rw [number_eq, hn]
+  simp only [Bool.false_eq_true, if_false, numberCore, hi]
+  have hf : fracPart [0x2E, 0x30] = some ([0x2E, 0x30], []) := by decide
+  have he : expPart [] = some ([], []) := rfl
+  simp only [hf, he]
+  have : isFiniteBits 0 = true := by decide
+  simp [this]
+
+theorem sdCanon_canon (x : UInt64) : sdCanon (fmtCanon x) = some x := by
+  unfold sdCanon fmtCanon
+  rw [(digits_all_dot (decNat x.toNat) [0x30] (allDigits_decNat _)).1, natOfDigits_decNat]
+  simp
+
 end Usual.C03
